@@ -73,6 +73,7 @@ type Prog struct {
 	SSASecs  float64
 	NPkgs    int
 	Overlay  map[string][]byte
+	Renames  []string // variables whose current name was mapped back to the frozen one (names.go)
 }
 
 // Load type-checks the repository (no execution) and builds SSA for the root packages.
@@ -161,6 +162,7 @@ func Load(dir string, overlay map[string][]byte, patterns ...string) (*Prog, err
 		p.byName[fn.String()] = fn
 	}
 	p.SSASecs = time.Since(t1).Seconds()
+	p.loadNameAliases()
 	return p, nil
 }
 
